@@ -1,6 +1,7 @@
 """C09 - duplicate keys are never merged or dropped: first wins, the rest are flagged."""
 import gens_split as G
 import splitcommon as SC
+from props import c09_copies as CP
 
 ENGINE = "split"
 RULE = ("grammar documents whose entry keys, string keys and field names are drawn from pools of 2-3 names so that collisions of every "
@@ -10,7 +11,16 @@ RULE = ("grammar documents whose entry keys, string keys and field names are dra
         "and with the default stack, a document possibly more than once) interleaved with Library.add / remove / replace calls in block "
         "and list form (members, the blocks wrapped in failed blocks, previous_blocks, blocks removed earlier, equal-but-not-identical "
         "copies, fresh blocks with pool keys; calls that are refused or raise included); after EVERY step the library is compared with "
-        "the first-wins history stated by the oracle; non-trivial = a collision or a refused call occurred")
+        "the first-wins history stated by the oracle; non-trivial = a collision or a refused call occurred. "
+        "Stream `copies` (props/c09_copies.py): such a document (bare field values drawn from the string keys) through ONE path that copies or "
+        "rebuilds the library - parse_string with parse_stack= / append_middleware= (list, tuple, iterator; into a caller's Library / subclass) "
+        "or Splitter.split + transform by hand, 0-3 shipped middlewares each in place / in copy mode / default (every shipped block middleware, "
+        "ResolveStringReferences, the block sorter, a user's LibraryMiddleware, default_parse_stack(True / False)), then 0-2 of copy.deepcopy, "
+        "copy.copy, pickle, Library(lib.blocks) and variants, one more transform; the RETURNED library is judged by the statement: previous_block "
+        "IS the live first block of that library (member of blocks, the object in entries_dict / strings_dict), the wrapped duplicate is "
+        "complete as written, positions kept unless the path sorts; a failure of the previous_block link alone on a path with a shipped block "
+        "middleware in copy mode is attributed to known finding K13, every other failure is a violation; paths that change neither content nor "
+        "order are also compared with the splitter model; non-trivial = the document has a collision")
 TRUSTED = ["the ground truth (source blocks) is produced by the generator",
            "stream `history`: which member a remove/replace argument denotes is decided with the library's own Block.__eq__ (C19's subject); "
            "steps whose argument equals more than one member are left out"]
@@ -41,6 +51,8 @@ def generate(rng, tier):
     n_hist = 700 if tier == "quick" else 12000
     hist = [gen_history(rng, 2 + (i * 7) // n_hist) for i in range(n_hist)]
     cases.extend({"stream": "history", "input": h} for h in hist)
+    # duplicate-key documents through every path that copies or rebuilds the library (props/c09_copies.py)
+    cases.extend(CP.generate(rng, tier))
     return cases
 
 
@@ -447,6 +459,8 @@ def impl_history(case):
 
 
 def impl(case):
+    if case.get("stream") == "copies" or "path" in case["input"]:
+        return CP.impl(case)
     if case.get("stream") == "history" or "steps" in case["input"]:
         return impl_history(case)
     if "t1" in case["input"]:
@@ -459,7 +473,7 @@ def impl(case):
         return rec
     lib = r[1]
     bs = lib.blocks
-    ok, detail = True, ""
+    ok, detail, known = True, "", None
     collisions = 0
     if len(bs) != len(items):
         ok, detail = False, "%d blocks for %d source blocks" % (len(bs), len(items))
@@ -521,29 +535,17 @@ def impl(case):
             lib2 = bibtexparser.parse_string(text)
             if SC.block_kinds(lib2) != SC.block_kinds(lib):
                 ok, detail = False, "default parse stack changed the classification: %r -> %r" % (SC.block_kinds(lib), SC.block_kinds(lib2))
-            # ... and every duplicate still points at the first block of ITS class with that key (in-place stack: the very
-            # object held by the library; copy-mode stack: a block of the same class and key)
+            # ... and after a parse stack every duplicate still exposes the first block: previous_block IS the live first block of
+            # the library that is RETURNED (in-place stack, and a stack whose library middleware works on a copy), and the wrapped
+            # duplicate is complete (CP.judge: the statement on a returned library against the source blocks)
             from bibtexparser.middlewares import ResolveStringReferencesMiddleware as RS, RemoveEnclosingMiddleware as RE
-            lib3 = bibtexparser.parse_string(text, parse_stack=[RS(allow_inplace_modification=False),
-                                                                RE(allow_inplace_modification=False)])
-            for name, L, ident in (("default", lib2, True), ("copy-mode", lib3, False)):
+            lib3 = bibtexparser.parse_string(text, parse_stack=[RS(allow_inplace_modification=False)])
+            for name, L in (("default", lib2), ("[ResolveStringReferencesMiddleware(allow_inplace_modification=False)]", lib3)):
                 if not ok:
                     break
-                if len(L.blocks) != len(bs):
-                    ok, detail = False, "%s parse stack changed the number of blocks" % name
-                    break
-                for i, (b, it) in enumerate(zip(L.blocks, items)):
-                    if type(b).__name__ != "DuplicateBlockKeyBlock":
-                        continue
-                    first = L.blocks[(live_e if it["kind"] == "entry" else live_s)[it["key"]]]
-                    prev = b.previous_block
-                    want_cls = "Entry" if it["kind"] == "entry" else "String"
-                    if type(prev).__name__ != want_cls or prev.key != it["key"] or (ident and prev is not first) \
-                            or type(b.ignore_error_block).__name__ != want_cls:
-                        ok, detail = False, ("after the %s parse stack, duplicate block %d (%s %r) has previous_block %s %r%s" %
-                                             (name, i, it["kind"], it["key"], type(prev).__name__, getattr(prev, "key", None),
-                                              "" if not ident or prev is first else " (not the first block held by the library)"))
-                        break
+                problem, link = CP.judge(L, items, positional=True, what="the library returned by the %s parse stack" % name)
+                if problem or link:
+                    ok, detail = False, problem or link
             # incremental parsing: the document cut between two source blocks, the second part parsed INTO the library of the
             # first (library=...): same classification, and every duplicate points at the first live block of the whole library
             if ok and len(items) >= 2:
@@ -578,10 +580,22 @@ def impl(case):
                 if ok and ({k: type(v).__name__ for k, v in L.entries_dict.items()} != {k: "Entry" for k in live_e} or
                            {k: type(v).__name__ for k, v in L.strings_dict.items()} != {k: "String" for k in live_s}):
                     ok, detail = False, "entries_dict / strings_dict after a parse stack do not hold exactly the first blocks"
+            # last (so that it hides nothing): the same stack with the block middleware in copy mode as well, judged by the full
+            # statement; a failure of the previous_block link alone is known finding K13 (props/c09_copies.py), anything else is not
+            if ok:
+                lib4 = bibtexparser.parse_string(text, parse_stack=[RS(allow_inplace_modification=False), RE(allow_inplace_modification=False)])
+                problem, link = CP.judge(lib4, items, positional=True, what="the library returned by the parse stack [ResolveStringReferences"
+                                         "Middleware(allow_inplace_modification=False), RemoveEnclosingMiddleware(allow_inplace_modification=False)]")
+                if problem:
+                    ok, detail = False, problem
+                elif link:
+                    ok, detail, known = False, link, "K13"
     rec["oracle"] = {"ok": ok, "detail": detail}
+    if known:
+        rec["oracle"]["known"] = known
     rec["nontrivial"] = collisions > 0
     rec["key"] = text if len(text) < 300 else str(hash(text))
-    rec["tags"] = ["collisions" if collisions else "no-collision"]
+    rec["tags"] = ["collisions" if collisions else "no-collision"] + (["copy-mode-block-stack:link-failed:" + known] if known else [])
     return rec
 
 
